@@ -40,3 +40,49 @@ Proof.
     rewrite C; lia. }
   rewrite H. reflexivity.
 Qed.
+
+(* exchanging ANY two positions (not only neighbours) flips the signature: the exchange is 2|m|+1 neighbour exchanges *)
+Lemma parity_move_right m : forall p x q, ~ In x m ->
+  parity (p ++ m ++ x :: q) = xorb (Nat.odd (length m)) (parity (p ++ x :: m ++ q)).
+Proof.
+  induction m as [|a m IH]; intros p x q Hx.
+  - cbn [app length]. rewrite xorb_false_l. reflexivity.
+  - assert (Ha : a <> x) by (intros E; apply Hx; left; exact E).
+    assert (Hm : ~ In x m) by (intros E; apply Hx; right; exact E).
+    change (p ++ (a :: m) ++ x :: q) with (p ++ a :: (m ++ x :: q)).
+    replace (p ++ a :: (m ++ x :: q)) with ((p ++ [a]) ++ m ++ x :: q) by (rewrite <- app_assoc; reflexivity).
+    rewrite (IH (p ++ [a]) x q Hm).
+    replace ((p ++ [a]) ++ x :: m ++ q) with (p ++ a :: x :: (m ++ q)) by (rewrite <- app_assoc; reflexivity).
+    change (p ++ x :: (a :: m) ++ q) with (p ++ x :: a :: (m ++ q)).
+    rewrite (parity_adjacent_swap p x a (m ++ q)) by (intros E; apply Ha; symmetry; exact E).
+    cbn [length]. rewrite Nat.odd_succ, <- Nat.negb_odd.
+    destruct (Nat.odd (length m)), (parity (p ++ x :: a :: m ++ q)); reflexivity.
+Qed.
+
+Theorem parity_any_swap p x m y q : x <> y -> ~ In x m -> ~ In y m ->
+  parity (p ++ y :: m ++ x :: q) = negb (parity (p ++ x :: m ++ y :: q)).
+Proof.
+  intros Hxy Hx Hy.
+  pose proof (parity_move_right m p x (y :: q) Hx) as E1.
+  pose proof (parity_move_right m p y (x :: q) Hy) as E2.
+  pose proof (parity_adjacent_swap (p ++ m) x y q Hxy) as E3.
+  rewrite <- !app_assoc in E3. rewrite E3, E1 in E2. revert E2.
+  destruct (Nat.odd (length m)), (parity (p ++ x :: m ++ y :: q)), (parity (p ++ y :: m ++ x :: q));
+    cbn; congruence.
+Qed.
+
+(* the hypotheses hold for every duplicate-free labelling, in particular for every permutation of 0..n-1 *)
+Corollary parity_any_swap_nodup p x m y q : NoDup (p ++ x :: m ++ y :: q) ->
+  parity (p ++ y :: m ++ x :: q) = negb (parity (p ++ x :: m ++ y :: q)).
+Proof.
+  intros H. pose proof (NoDup_remove_2 _ _ _ H) as Hx.
+  assert (H1 : NoDup ((p ++ x :: m) ++ y :: q)) by (rewrite <- app_assoc; exact H).
+  pose proof (NoDup_remove_2 _ _ _ H1) as Hy.
+  apply parity_any_swap.
+  - intros E; apply Hx; apply in_or_app; right; apply in_or_app; right; left; symmetry; exact E.
+  - intros E; apply Hx; apply in_or_app; right; apply in_or_app; left; exact E.
+  - intros E; apply Hy; apply in_or_app; left; apply in_or_app; right; right; exact E.
+Qed.
+Example parity_any_swap_nonvacuous :
+  NoDup ([3] ++ 0 :: [4; 1] ++ 2 :: [5]) /\ parity ([3] ++ 2 :: [4; 1] ++ 0 :: [5]) = negb (parity ([3] ++ 0 :: [4; 1] ++ 2 :: [5])).
+Proof. split; [repeat constructor; cbn; intuition lia | vm_compute; reflexivity]. Qed.
